@@ -151,6 +151,7 @@ var ssDocs = []string{
 	`{"a": {"a": 1, "b": [3]}, "b": [{"a": "k"}, {"a": null}, 5]}`, `[[1, 2], [3], []]`, `{"a": "abc", "b": false}`, `{"a": [], "b": {}}`, `["b", "a", "b"]`,
 	`{"a": -3, "b": 2.5}`, `[{"a": 1, "b": 2}, {"a": 3}, null, {"a": null, "b": "s"}]`, `{"a": [[1, "s"], {"a": 2}], "b": [0, -1]}`, `{"a": true, "b": null}`,
 	`{"a": {"x": null, "k": 1}, "b": {"y": null, "k": 1}}`, `{"a": 1.50, "b": 12345678901234567890123456789012345678}`, `{"a": [{"x": null}, {"y": null}, {}], "b": {"x": null}}`,
+	`[{"a": 1}, {"a": 2, "b": "s"}, {"b": 3}, null]`, `{"a": [{"a": 1}, null, {"a": 2, "b": "s"}, {"b": 3}], "b": [null, {"a": {"b": 1}}]}`,
 }
 
 type ssCase struct {
